@@ -539,9 +539,23 @@ def cases(tier):
 
 
 def explore(tier):
-    for s in _grids(tier):
+    for gi, s in enumerate(_grids(tier)):
         m = Model(s)
         r = histbfs.bfs(m, _depth(tier))
+        if tier == "thorough" and gi == 0:
+            # soundness of the state merging: pure history enumeration (no merging) to depth 3 must
+            # produce exactly the same set of finding keys as the merged search up to that depth
+            r2 = histbfs.bfs(m, 3, merge=False)
+            k_merged = {f["key"] for h, f in r["findings"] if len(h) <= 4}
+            k_plain = {f["key"] for h, f in r2["findings"]}
+            yield ({"grid": s, "depth": 3, "unmerged": True},
+                   {"evals": r2["states"], "nontrivial": r2["states"], "states": r2["states"], "transitions": r2["transitions"],
+                    "findings": [] if k_merged == k_plain else [{
+                        "key": "C09:HARNESS:merge_disagreement",
+                        "msg": "merged and unmerged searches disagree up to depth 3: only merged %s, only unmerged %s"
+                               % (sorted(k_merged - k_plain)[:3], sorted(k_plain - k_merged)[:3]), "detail": {}}],
+                    "outcomes": {"unmerged_crosscheck": 1}, "label": "unmerged:" + U.spec_id(s),
+                    "depth_completed": r2["depth_completed"], "per_level": r2["per_level"]})
         by_hist = {}
         for hist, f in r["findings"]:
             by_hist.setdefault(tuple(hist), []).append(f)
